@@ -128,7 +128,7 @@ theorem estimateInputs_error_mem {is : List Input} {e : Err} (i : Input) (hi : i
 
 private theorem serOpt_len_mono {a b : Option Bytes} (h : optLen a ≤ optLen b) :
     (serOptScript a).length ≤ (serOptScript b).length := by
-  rw [C01.serOptScript_getD' a, C01.serOptScript_getD' b]
+  rw [C01.serOptScript_getD_eq a, C01.serOptScript_getD_eq b]
   simp only [List.length_append, varintEnc_length]
   have := varintLen_mono h
   simp only [optLen] at h
